@@ -115,8 +115,33 @@ class Mirror:
         return b"/" + b"/".join(reversed(segs))
 
 
-def gen_history(rng, nops, files=(1,), backend="BE", big=False, wide=False, paths=None):
+# Triggers of genuine defects that are listed as known (KNOWN_FINDINGS.txt) are kept out of the random histories --
+# everything after them in a history would be tainted -- and run as fixed witnesses instead (WITNESSES, used by C02):
+# the finding is reported while its witness still fails, and the trigger returns to the histories by itself once the
+# key is no longer listed.
+KEY_DESC_MOVE = "move-under-own-descendant-accepted"
+KEY_LONG_LOOKUP = "adf-lookup-name-longer-than-32-matches-32-char-child"
+WITNESSES = {
+    KEY_DESC_MOVE: ["file 1 W1.cgns BE w", "create 1 0 1 41", "create 1 1 2 42", "move 1 0 1 2", "nchild 1 0"],
+    KEY_LONG_LOOKUP: ["file 1 W2.cgns BE w", "create 1 0 1 " + "61" * 32, "lookup 1 0 " + "61" * 33],
+}
+
+
+def known_avoid():
+    out = set()
+    try:
+        for l in open(os.path.join(os.path.dirname(os.path.dirname(os.path.abspath(__file__))), "KNOWN_FINDINGS.txt")):
+            for k in (KEY_DESC_MOVE, KEY_LONG_LOOKUP):
+                if l.startswith("known:") and ("key=" + k + " ") in l:
+                    out.add(k)
+    except OSError:
+        pass
+    return out
+
+
+def gen_history(rng, nops, files=(1,), backend="BE", big=False, wide=False, paths=None, avoid=None):
     """one history over the given file numbers (all opened 'w' first); returns list of script lines"""
+    avoid = known_avoid() if avoid is None else avoid
     paths = paths or {f: "F%d.cgns" % f for f in files}
     lines, M = [], {}
     for f in files:
@@ -277,8 +302,38 @@ def gen_history(rng, nops, files=(1,), backend="BE", big=False, wide=False, path
             lines.append("reopen %d %s" % (f, md)); mode[f] = md
         else:
             # the malformed stream: duplicate / empty / over-long / slashed names, unknown handles, bad ranges
-            k = rng.randint(0, 6)
-            if k == 0 and nonroot:
+            k = rng.randint(0, 9)
+            if k == 7 and len(nonroot) > 2:
+                # a move onto a name the new parent already has: refused, nothing changes
+                pairs = [(u, v) for u in nonroot for v in nonroot if u != v and m.nodes[u]["name"] == m.nodes[v]["name"]
+                         and m.nodes[u]["parent"] != m.nodes[v]["parent"] and m.nodes[v]["parent"] not in m.subtree(u)]
+                if not pairs:
+                    # make one: a child of another parent with the same name as u, then try to move u there
+                    u = rng.choice(nonroot); others = [x for x in alive if x not in m.subtree(u) and x != m.nodes[u]["parent"] and m.depth(x) < 6 and
+                                                       m.nodes[u]["name"] not in {m.nodes[c]["name"] for c in m.kids(x)}]
+                    if others and not ro:
+                        x = rng.choice(others); w = m.next; m.next += 1
+                        lines.append("create %d %d %d %s" % (f, x, w, hx(m.nodes[u]["name"])))
+                        m.nodes[w] = dict(parent=x, name=m.nodes[u]["name"], dt="MT", dims=[], written=False)
+                        pairs = [(u, w)]
+                if pairs:
+                    u, v = rng.choice(pairs); np_ = m.nodes[v]["parent"]
+                    lines.append("move %d %d %d %d" % (f, m.nodes[u]["parent"], u, np_))
+                    lines.append("nchild %d %d" % (f, np_)); lines.append("names %d %d 1 %d" % (f, np_, len(m.kids(np_)) + 2))
+            elif k == 8 and nonroot and KEY_DESC_MOVE not in avoid:
+                # a move of a node under itself or under one of its descendants: refused, nothing changes
+                withkids = [u for u in nonroot if m.kids(u)]
+                u = rng.choice(withkids or nonroot)
+                np_ = rng.choice(m.subtree(u))
+                lines.append("move %d %d %d %d" % (f, m.nodes[u]["parent"], u, np_))
+                lines.append("nchild %d %d" % (f, m.nodes[u]["parent"])); lines.append("lookup %d 0 %s" % (f, hx(m.path(u))))
+            elif k == 9 and nonroot and KEY_LONG_LOOKUP not in avoid:
+                # a name longer than 32 characters that extends an existing child's name does not find that child
+                u = rng.choice(nonroot); nm = m.nodes[u]["name"]
+                longer = (nm + b"x" * 33)[:33]
+                lines.append("lookup %d %d %s" % (f, m.nodes[u]["parent"], hx(longer)))
+                lines.append("lookup %d 0 %s" % (f, hx(m.path(m.nodes[u]["parent"]).rstrip(b"/") + b"/" + longer)))
+            elif k == 0 and nonroot:
                 u = rng.choice(nonroot); p = m.nodes[u]["parent"]
                 lines.append("create %d %d %d %s" % (f, p, 4000 + i % 90, hx(m.nodes[u]["name"])))
             elif k == 1:
